@@ -26,8 +26,10 @@ THEOREMS = [
     "RefineAscTop.skip_comments_sim", "RefineAscTop.parse_tree_refines", "RefineAscTop.top_sim", "RefineAscTop.parse_refines",
     "RefineAscFuel.convertWith_nofuel",
 ]
-TRUSTED = ["hand-written lexer/parser model Model/Asc.lean (tied by the c15.convert correspondence on generated, truncated and corrupted documents); "
-           "the AST is not materialised in the model: rows are created in `_parse_node` order (= the pre-order `walk_ast` assigns), covered by the correspondence"]
+TRUSTED = ["hand-written character-level lexer model `Asc.lex` in Model/Asc.lean (tied by the c15.convert / asclex correspondence on generated, truncated and "
+           "corrupted documents); the token-level parser model (`Asc.convertTokens`: the `flag` protocol, rows created in `_parse_node` order without "
+           "materialising the AST) is no longer trusted: C15.generated_convert_eq_model proves it equal to the parser and the walk translated from the "
+           "source on every token list; what remains trusted there is the translator and its glue (design_notes/session4/ascparser.md, items 1-6)"]
 ASSUMPTIONS = ["ASCII documents; CPython `float()` on the lexer's words (words with underscores or non-ASCII digits are outside the generator)",
                "a well-formed document has exactly one tree, labelled Axon or Dendrite; colour markers are `(Color <word>)`"]
 
